@@ -980,6 +980,18 @@ func (x *exec) doSelect(s *State, sel *ssa.Select) Value {
 			}
 		}
 		e.heapSet(s, "chan#lastrecv", c.Store(h, c.IntC(0), last))
+		hh := e.heapGet(s, "chan#holds", Array(Int, Bool))
+		for k, st := range sel.States {
+			if ch, ok := x.val(st.Chan, s).(*Term); ok {
+				chosen := c.Eq(idx, c.IntC(int64(k)))
+				if st.Dir == types.RecvOnly {
+					hh = c.Ite(chosen, c.Store(hh, ch, c.False()), hh)
+				} else {
+					hh = c.Ite(chosen, c.Store(hh, ch, c.True()), hh)
+				}
+			}
+		}
+		e.heapSet(s, "chan#holds", hh)
 	}
 	for _, st := range sel.States {
 		if st.Dir == types.RecvOnly {
